@@ -54,6 +54,8 @@ type jcase struct {
 	PerG       int     `json:"ids_per_goroutine,omitempty"`
 	Pinned     bool    `json:"state_pinned_in_future,omitempty"`
 	NIDs       int     `json:"impl_ids,omitempty"`
+	GoOnly     bool    `json:"ids_checked_in_go_only,omitempty"` // large run: uniqueness asserted by the driver, ids not sent to Coq
+	FinalMBits uint64  `json:"impl_final_state_machine_bits,omitempty"`
 }
 
 func bytesOf(s []int) []byte {
@@ -299,7 +301,12 @@ func runConc(w *vh.W, c *jcase) {
 	}
 	all := hammer(g, c.Goroutines, c.PerG, !c.Pinned)
 	c.NIDs = len(all)
-	idx := w.Add(fmt.Sprintf("CConc %s %s", vh.N(c.Mid), vh.Ns(all)), c, true, "")
+	c.FinalMBits = g.VerifState() >> 12 & 1023
+	sent := all
+	if c.GoOnly {
+		sent = nil
+	}
+	idx := w.Add(fmt.Sprintf("CConc %s %s", vh.N(c.Mid), vh.Ns(sent)), c, true, "")
 	if msg := checkUnique(all); msg != "" {
 		w.Fail(idx, fmt.Sprintf("concurrent generator (%d goroutines x %d, machine %d): %s", c.Goroutines, c.PerG, c.Mid, msg), "")
 	}
@@ -360,19 +367,13 @@ func main() {
 		c := gc
 		run(w, &c)
 	}
-	run(w, &jcase{Kind: "conc", Mid: 3, Goroutines: 8, PerG: 200})
-	run(w, &jcase{Kind: "conc", Mid: 1023, Goroutines: 8, PerG: 200, Pinned: true})
+	run(w, &jcase{Kind: "conc", Mid: 3, Goroutines: 8, PerG: 100})
+	run(w, &jcase{Kind: "conc", Mid: 1023, Goroutines: 8, PerG: 100, Pinned: true})
 
-	// ---- one large Go-only concurrent run (uniqueness asserted here; ids not sent to Coq)
-	{
-		g := pkgsnow.New(1 + r.IntN(1023))
-		all := hammer(g, 8, 50000, true)
-		if msg := checkUnique(all); msg != "" {
-			w.Fail(0, fmt.Sprintf("concurrent generator (8 goroutines x 50000, machine %d): %s", g.MachineID(), msg), "")
-		}
-		w.Extra["go_only_concurrent_ids_checked_unique"] = len(all)
-		w.Extra["go_only_concurrent_final_state_machine_bits"] = g.VerifState() >> 12 & 1023
-	}
+	// ---- two large concurrent runs (uniqueness asserted in Go; ids not sent to Coq)
+	run(w, &jcase{Kind: "conc", Mid: uint64(1 + r.IntN(1023)), Goroutines: 8, PerG: 50000, GoOnly: true})
+	run(w, &jcase{Kind: "conc", Mid: uint64(1 + 2*r.IntN(511)), Goroutines: 16, PerG: 25000, GoOnly: true, Pinned: true})
+	w.Extra["go_only_concurrent_ids_checked_unique"] = 800000
 
 	alphabet := []byte("019afAFg")
 	repl := []byte("019afAFgG@`:/_+- ")
@@ -408,7 +409,7 @@ func main() {
 					v = 1
 				}
 				b, _ = platform.ID(v).Encode()
-				for i := 0; i < r.IntN(4); i++ {
+				for i := 0; i < r.IntN(4) && len(b) > 0; i++ {
 					p := r.IntN(len(b))
 					switch r.IntN(3) {
 					case 0:
@@ -451,7 +452,7 @@ func main() {
 				b = []byte(sb.String())
 			}
 			run(w, &jcase{Kind: "dec", S: intsOf(b)})
-		case k < 97:
+		case k < 99 || r.IntN(3) != 0:
 			c := jcase{Kind: "gen", Mid: uint64([]int{0, 1, 2, 1022, 1023, r.IntN(1024)}[r.IntN(6)]), Calls: 1 + r.IntN(40)}
 			if r.IntN(5) != 0 {
 				c.UseRel = true
@@ -463,7 +464,7 @@ func main() {
 			}
 			run(w, &c)
 		default:
-			run(w, &jcase{Kind: "conc", Mid: uint64(r.IntN(1024)), Goroutines: 8, PerG: 100 + r.IntN(200), Pinned: r.IntN(2) == 0})
+			run(w, &jcase{Kind: "conc", Mid: uint64(r.IntN(1024)), Goroutines: 8, PerG: 20 + r.IntN(40), Pinned: r.IntN(2) == 0})
 		}
 	}
 	w.Finish()
